@@ -132,6 +132,10 @@ def op_open_pr(w, op):
     w.user_prs.append(pr.id)
     w.src_commits = getattr(w, 'src_commits', {})
     w.src_commits[pr.id] = shas
+    if op.get('drop_dst') and dst not in heads:
+        # the destination (created for this PR only) disappears again
+        # before the robot gets to see the pull request
+        w.ugit('push', '-q', 'origin', ':' + dst, check=False)
     w.events.append({'k': 'pr', 'id': pr.id, 'why': 'opened'})
 
 
